@@ -1,4 +1,6 @@
 """Program model over the extracted facts: functions, bodies, CFG utilities (A1), def-use (A3)."""
+import os
+
 from .facts import AnalysisError
 
 
@@ -363,6 +365,7 @@ class Program:
                 self.unsafe.append(u)
         self.workspace_crates = set(self.crates)
         self._callee_index = None
+        self.renamed_locals = 0
         self._by_path = {}
         for fn in self.fns.values():
             self._by_path.setdefault(fn.path, []).append(fn)
@@ -372,6 +375,14 @@ class Program:
                 self.children.setdefault(fn.root, []).append(fn)
         for v in self.children.values():
             v.sort(key=lambda f: (f.span[1], f.id))
+
+    def apply_roles(self):
+        """give renamed locals and parameters their recorded role names (ctecheck/roles.py)"""
+        from . import roles
+        if os.environ.get("CTE_NO_ROLES"):
+            return 0
+        self.renamed_locals = roles.apply(self)
+        return self.renamed_locals
 
     def callee_index(self):
         """callee pretty name (as it appears in call nodes) -> set of workspace body ids"""
